@@ -223,7 +223,8 @@ func c05Run(r *core.Run) {
 	if len(sub) > 40 {
 		// sub-alphabet for sum/avg: every 7th operand plus the decimal fractions
 		sub = append([]string{}, ops[:10]...)
-		for i := 10; i < len(ops); i += len(ops)/28 + 1 {
+		sub = append(sub, "1", "-1", "9223372036854775807", "-9223372036854775808", "-9223372036854775807", "9223372036854775808", "9007199254740993", "1e34", "-1e34", "9999999999999999999999999999999999")
+		for i := 10; i < len(ops); i += len(ops)/22 + 1 {
 			sub = append(sub, ops[i])
 		}
 	}
